@@ -62,13 +62,14 @@ LAST_EXC = {"site": ""}
 
 
 def _raise_site(e):
+    # "file.py:function" of every pDESy frame of the traceback, outermost first, joined by " > ",
+    # followed by the exception message
     import traceback
 
     tb = traceback.extract_tb(e.__traceback__)
-    if not tb:
-        return ""
-    fr = tb[-1]
-    return "%s:%s" % (_os.path.basename(fr.filename), fr.name)
+    frames = ["%s:%s" % (_os.path.basename(fr.filename), fr.name) for fr in tb
+              if _os.sep + "pDESy" + _os.sep in fr.filename]
+    return " > ".join(frames) + " | " + str(e)[:80]
 
 
 def call_recorded(model, fn, abort_at=None, light=False):
